@@ -503,9 +503,10 @@ func runC02(h *H) {
 			h.DoRisky("json.unmarshal", sub, set, strconv.Itoa(k+h.Intn(3)*4))
 		}
 	}
-	runC02Any(h)         // c02any.go: whole documents into `var x any`
-	runC02Typed(h)       // c02typed.go: typed targets with prior content
-	genCodecChoiceDec(h) // c01codecdec.go: which decoder a type gets (Unmarshaler detection, null handling)
+	runC02Any(h)            // c02any.go: whole documents into `var x any`
+	runC02Typed(h)          // c02typed.go: typed targets with prior content
+	genCodecChoiceDec(h)    // c01codecdec.go: which decoder a type gets (Unmarshaler detection, null handling)
+	runC09HistErr(h, "C02") // c09histerr.go
 }
 
 // nullAt replaces the k-th (mod count) scalar or string VALUE of the document (not a key) by null.
